@@ -63,6 +63,29 @@ static void run_case(const std::string& cid, Toks& t) {
         ParMatrix* A = L.coo();
         for (int i = 0; i < k; i++) { ParMatrix* Bm = papply(A, t.next()); A = Bm; }
         emit_all(cid, "T", parmat_triples(A)); emit_all(cid, "D", dims_str(A)); emit0(cid, "DONE", "1");
+    } else if (op == "pbconv") {
+        // cid pbconv br bc <ParLit> k op1..opk    block chain on ParCSRMatrix::to_ParBSR(br, bc): to_bcoo to_bsr to_bsc copy
+        int br = t.next_int(), bc = t.next_int(); ParLit L; L.parse(t); int k = t.next_int();
+        if (!L.usable()) return;
+        ParCSRMatrix* Ac = L.csr(); ParMatrix* A = Ac->to_ParBSR(br, bc);
+        for (int i = 0; i < k; i++) { std::string o = t.next(); ParMatrix* Bm;
+            if (o == "to_bcoo") Bm = A->to_ParBCOO(); else if (o == "to_bsr") Bm = A->to_ParBSR(); else if (o == "to_bsc") Bm = A->to_ParBSC();
+            else if (o == "copy") Bm = A->copy(); else throw std::runtime_error("op " + o);
+            A = Bm; }
+        // expanded global triples of the local block rows
+        std::ostringstream o; bool first = true;
+        for (int part = 0; part < 2; part++) {
+            Matrix* M = part ? A->off_proc : A->on_proc;
+            BCOOMatrix* C = (BCOOMatrix*) M->to_BCOO();
+            std::vector<int>& cmap = part ? A->off_proc_column_map : A->on_proc_column_map;
+            for (int q = 0; q < C->nnz; q++) for (int r = 0; r < C->b_rows; r++) for (int c = 0; c < C->b_cols; c++) {
+                double v = C->block_vals[q][r * C->b_cols + c]; if (v == 0.0) continue;
+                if (!first) o << " "; first = false;
+                o << A->local_row_map[C->idx1[q]] * C->b_rows + r << " " << cmap[C->idx2[q]] * C->b_cols + c << " " << num_str(v); }
+        }
+        std::ostringstream d; d << A->global_num_rows << " " << A->global_num_cols << " " << A->local_num_rows << " " << A->on_proc_num_cols << " "
+          << A->off_proc_num_cols << " fmt " << (int)A->on_proc->format();
+        emit_all(cid, "T", o.str()); emit_all(cid, "D", d.str()); emit0(cid, "DONE", "1");
     } else if (op == "padd") {
         std::string which = t.next(); ParLit LA, LB; LA.parse(t); LB.parse(t);
         if (!LA.usable() || !LB.usable()) return;
